@@ -66,6 +66,12 @@ type replayFile struct {
 	Excerpt     []store.Event       `json:"event_log_excerpt"`
 	Original    map[string][]uint64 `json:"original_tapes,omitempty"`
 	Layout      string              `json:"check_layout_hash"`
+	// History lists the runs (indices under the same VERIF_SEED) that the same
+	// worker process executed before this one and that a replay must execute
+	// first: set when the violation does not reproduce in a fresh process on
+	// its own but does after them, i.e. when it depends on what else the
+	// process did (package-level state in the code under test).
+	History []int `json:"process_history_runs,omitempty"`
 }
 
 type workerOut struct {
@@ -640,6 +646,12 @@ func replay1(id, path string) int {
 		fmt.Fprintf(os.Stderr, "replay exceeded %v (harness trouble, not a verdict)\n", limit)
 		os.Exit(exitHarness)
 	}()
+	for _, h := range rf.History {
+		_ = ck.Run(tape.NewSet(runSeed(rf.VerifSeed, id, h)), checks.Tier(rf.Tier))
+	}
+	if len(rf.History) > 0 {
+		fmt.Printf("executed %d earlier runs of the same process first (runs %d..%d of seed %d)\n", len(rf.History), rf.History[0], rf.History[len(rf.History)-1], rf.VerifSeed)
+	}
 	res := ck.Run(ts, checks.Tier(rf.Tier))
 	sc, _ := json.Marshal(res.Scenario)
 	fmt.Printf("replay %s seed=%d run=%d tier=%s\nscenario: %s\n", id, rf.VerifSeed, rf.RunIndex, rf.Tier, sc)
@@ -931,7 +943,31 @@ func master(id string, tier checks.Tier) int {
 			}
 		}
 		if code != exitViolation {
-			fmt.Fprintf(os.Stderr, "harness trouble: violation %s (%s) did not reproduce in a fresh process (exit %d):\n%s\n", total.Violations[i], cls, code, tail(string(out), 2000))
+			// not on its own: does it depend on what the worker process had
+			// done before? Replay with the runs that preceded it in that
+			// process (the worker's share is every W-th run), doubling the
+			// length of the history until the violation shows again
+			for k := 1; k <= 256 && code != exitViolation; k *= 2 {
+				hist := historyOf(total.Violations[i], W, k)
+				if hist == nil {
+					break
+				}
+				cmd = exec.Command(self, "replay", id, total.Violations[i])
+				out, _ = cmd.CombinedOutput()
+				if cmd.ProcessState != nil {
+					code = cmd.ProcessState.ExitCode()
+				}
+				if code == exitViolation {
+					total.Extra["violations_needing_process_history"]++
+					total.Msgs[i] += fmt.Sprintf(" [reproduces only after the %d runs the same process executed before it: process-wide state]", len(hist))
+				} else if len(hist) < k {
+					break // the whole past of that worker was already replayed
+				}
+			}
+		}
+		if code != exitViolation {
+			historyOf(total.Violations[i], W, 0)
+			fmt.Fprintf(os.Stderr, "harness trouble: violation %s (%s) did not reproduce in a fresh process, alone or after the runs that preceded it (exit %d):\n%s\n", total.Violations[i], cls, code, tail(string(out), 2000))
 			harnessTrouble = true
 			continue
 		}
@@ -1111,6 +1147,31 @@ func classOf(path string) string {
 		return ""
 	}
 	return rf.Class
+}
+
+// historyOf rewrites the replay file at path so that a replay first executes
+// the last k runs its worker process (one of W, taking every W-th run) had
+// executed before the recorded run. It returns the history written (nil on
+// failure or when there is no earlier run); k == 0 clears it.
+func historyOf(path string, W, k int) []int {
+	b, err := os.ReadFile(path)
+	if err != nil {
+		return nil
+	}
+	var rf replayFile
+	if json.Unmarshal(b, &rf) != nil {
+		return nil
+	}
+	var hist []int
+	for j, h := 0, rf.RunIndex-W; j < k && h >= 0; j, h = j+1, h-W {
+		hist = append([]int{h}, hist...)
+	}
+	rf.History = hist
+	nb, _ := json.MarshalIndent(rf, "", " ")
+	if os.WriteFile(path, nb, 0o644) != nil || (k > 0 && len(hist) == 0) {
+		return nil
+	}
+	return hist
 }
 
 func restoreOriginal(path string) bool {
